@@ -64,6 +64,7 @@ package optimization
 //@ func (*app/optimization.Syncer).Sync
 //@   ensures C19.sync_one [C19]: e_Optimize <= old(e_Optimize) + 1 && e_OptCreate == old(e_OptCreate) && (forall h string :: d_optReg[h] ==> old(d_optReg)[h])
 //@   assert_at disableNodes#1 C19.sync_drops_converged_and_lost [C19]: callarg2 == masterRs
+//@   assert_at balanceToSingleNode#1 C19.sync_all_off_before_balance [C19]: forall h string :: contains(hostsState.OptimizedHosts, h) || contains(hostsState.MalfunctioningHosts, h) ==> !d_optReg[h]
 //@   assert_at balanceToSingleNode#1 C19.sync_balance_after_disable [C19]: resultof("disableNodes", 1) == nil && callarg1 == masterRs && callarg2 == hostsState
 
 // ---- C20: structural invariants (assumed at entry in the sweep) ---------------------------------------------------
